@@ -475,6 +475,8 @@ def value_cases(ctx):
             # empty elements: in the middle, at the end, alone (an empty element is a value for strings and
             # does not convert for the numeric kinds)
             envvals += [valid[0] + ",," + valid[1], valid[0] + "," + valid[1] + ",", ","]
+            # elements padded with blanks other than the space
+            envvals += [valid[0] + ",\t" + valid[1] + "\t", "\r\n" + valid[1] + " ,\v" + valid[0] + "\f"]
         for isopt in (True, False):
             for default in DEFAULTS[kind]:
                 for nenv in range(0, ctx.scale(3, 4)):
